@@ -647,6 +647,14 @@ def j_c09(inp):
                 for (a0, a1) in ivs:
                     if not any(b0 <= a0 and a1 <= b1 for (b0, b1) in si.get(k_, [])):
                         v.append(f"track {ti}: bars sound {k_} on [{a0},{a1}) where the input is silent")
+            # a note lying inside one bar whose duration is an allowed default value (and that is not followed by the
+            # same key before its end) must come out unchanged; notes longer than 36 ticks are listed finding D22
+            allowed = {24, 12, 6, 16, 8, 4, 36, 18, 9}
+            r_out = roll(laid) or []
+            for n in roll(tracks[ti][0]):
+                inside = any(st <= n[2] and n[2] + n[3] <= st + ln for st, ln, _ in bounds)
+                if inside and n[3] in allowed and n not in r_out:
+                    v.append(f"track {ti}: note {n} lies inside one bar with an allowed duration but is not reproduced")
     return v
 
 
@@ -742,6 +750,12 @@ def j_c17(inp):
     a, b, fl, kind = inp
     if not (wellformed(a) and wellformed(b)):
         return None
+    # two different signatures of one type on the same tick and channel have no defined order (the stable sort keeps
+    # insertion order; C17_insertion_order_refuted / C17_perm_invariant's hypothesis): outside the property's domain
+    for l in (a, b):
+        sigs = [(m[0], m[1], m[2]) for m in l if m[0] in ("TIME_SIGNATURE", "KEY_SIGNATURE")]
+        if len(set(sigs)) != len(sigs):
+            return None
     sa, sb = mk_abs(a), mk_abs(b)
     v = []
     if not mk_abs(a).equals(mk_abs(a)):
